@@ -128,7 +128,9 @@ class ArffAttrReader(Filter[Iterable[str], Iterable[Tuple[str,Callable]]]):
 
 class ArffDataReader(Filter[Iterable[str], Iterable[Union[Dense,Sparse]]]):
 
-    _trans = str.maketrans('','',' \t\n\r\v\f')
+    _trans     = str.maketrans('\t',',',' \n\r\v\f')
+    _r_quoted  = re.compile(r"""'(?:[^'\\]|\\.)*'|"(?:[^"\\]|\\.)*\"""")
+    _r_missing = re.compile(r"\s\?\s*(,|\}|$)")
 
     def __init__(self, is_dense:bool) -> None:
         self._is_dense = is_dense
@@ -146,8 +148,9 @@ class ArffDataReader(Filter[Iterable[str], Iterable[Union[Dense,Sparse]]]):
             elif line[-2:] == ",?":
                 missing = True
             else:
-                compact = line.translate(self._trans)
-                missing = compact[:2] == '?,' or ',?,' in compact or compact[-2:] == ',?'
+                #we ignore quoted values (a '?' in there is not a missing value) and treat tabs like commas
+                compact = self._r_quoted.sub("''",line).translate(self._trans)
+                missing = compact[:2] == '?,' or ',?,' in compact or compact[-2:] == ',?' or compact == '?'
 
             yield line,missing
 
@@ -155,7 +158,7 @@ class ArffDataReader(Filter[Iterable[str], Iterable[Union[Dense,Sparse]]]):
 
         for line in lines:
             if line[0] == "%": continue
-            missing = " ?," in line or line[-3:] == " ?}"
+            missing = "?" in line and bool(self._r_missing.search(self._r_quoted.sub("''",line)))
             yield line,missing
 
 class ArffLineReader(Filter[str, Sequence[str]]):
